@@ -21,6 +21,7 @@ import (
 	"os"
 	"path/filepath"
 	"sort"
+	"strings"
 	"sync"
 
 	"golang.org/x/tools/go/ssa"
@@ -225,6 +226,14 @@ func writeNames(P *Program) error {
 			}
 		}
 	}
+	var all []declName
+	for k, fns := range P.Funcs {
+		if len(fns) > 0 && inRepoFn(fns[0]) {
+			all = append(all, declName{Name: k})
+		}
+	}
+	sort.Slice(all, func(i, j int) bool { return all[i].Name < all[j].Name })
+	out["funcs:all"] = all
 	for _, pkg := range P.Pkgs {
 		if pkg.Types == nil || !inRepo(pkg.Types) {
 			continue
@@ -242,4 +251,65 @@ func writeNames(P *Program) error {
 		return err
 	}
 	return os.WriteFile(filepath.Join(verifDir, "props", "names.json"), data, 0o644)
+}
+
+// funcRenamed maps the key of a function as it is called now to the key its contract was written under.
+var funcRenamed = map[string]string{}
+
+// findFuncRenames: a contract whose function is gone, while the same package (and receiver type) has exactly one
+// function that did not exist when the contracts were written and that declares variables of the same types in
+// the same order, is taken to be that function's contract. As with variables, a wrong guess cannot prove
+// anything: the contract is checked against the body it is attached to.
+func findFuncRenames(P *Program) bool {
+	if recordedNames == nil {
+		loadRecordedNames()
+	}
+	all := map[string]bool{}
+	for _, d := range recordedNames["funcs:all"] {
+		all[d.Name] = true
+	}
+	if len(all) == 0 {
+		return false
+	}
+	prefix := func(k string) string {
+		if i := strings.LastIndex(k, "."); i >= 0 {
+			return k[:i]
+		}
+		return k
+	}
+	typesOf := func(ds []declName) string {
+		var ts []string
+		for _, d := range ds {
+			ts = append(ts, d.Type)
+		}
+		return strings.Join(ts, ";")
+	}
+	found := false
+	var keys []string
+	for k := range P.Contracts {
+		keys = append(keys, k)
+	}
+	sort.Strings(keys)
+	taken := map[string]bool{}
+	for _, k := range keys {
+		c := P.Contracts[k]
+		if c.IsIface || c.External || strings.Contains(k, "$") || len(P.Funcs[k]) > 0 || len(recordedNames[k]) == 0 {
+			continue
+		}
+		var cands []string
+		for k2, fns := range P.Funcs {
+			if all[k2] || taken[k2] || strings.Contains(k2, "$") || prefix(k2) != prefix(k) || P.Contracts[k2] != nil || len(fns) == 0 {
+				continue
+			}
+			if typesOf(declNames(P, fns[0])) == typesOf(recordedNames[k]) {
+				cands = append(cands, k2)
+			}
+		}
+		if len(cands) == 1 {
+			funcRenamed[cands[0]] = k
+			taken[cands[0]] = true
+			found = true
+		}
+	}
+	return found
 }
